@@ -309,10 +309,12 @@ def decide(pid, cfg, tier, seed, t0):
     assumptions = list(cfg.get("assumptions", []))
     gen = regenerate()
     build_driver()
-    p_ok, p_err = build_property(pid)
     theorems = cfg.get("theorems", [])
+    # proof obligations exist only for properties with registered theorems (a Properties file that is still
+    # work in progress is not yet part of the claim)
+    p_ok, p_err = build_property(pid) if theorems else (True, "")
     audit = audit_axioms(pid, theorems) if p_ok else {t: (False, ["module did not build"]) for t in theorems}
-    scan = source_scan(pid)
+    scan = source_scan(pid) if theorems else []
     undischarged = [t for t, (ok, _) in audit.items() if not ok]
     if not gen["ok"]:
         p_ok = False
